@@ -77,8 +77,8 @@ def Ctx.notifySubChange (c : Ctx) (t : Topic) (uid actor : Uid) (oldWant oldGive
   else
     let newM := newWant &&& newGiven
     let oldM := oldWant &&& oldGiven
-    let c := if !hearsPres newM ∧ hearsPres oldM then c.presSingleOfflineOffline uid t.name "off+dis" "" "" "" ""
-      else if hearsPres newM ∧ !hearsPres oldM then c.presSingleOffline t uid newM "?unkn+en" "" "" "" "" false
+    let c := if !hearsPres newM ∧ hearsPres oldM then c.presSingleOfflineOffline uid t.name "off" "" "" "" "" "dis"
+      else if hearsPres newM ∧ !hearsPres oldM then c.presSingleOffline t uid newM "?unkn" "" "" "" "" false "en"
       else c
     -- presSubsOnlineDirect("acs", singleUser = target): target and actor are NOT cleared here
     let c := c.presDirect t { what := "acs", src := "", extra := acs, singleUser := uid, skipSid := skip }
@@ -223,7 +223,7 @@ def Ctx.thisUserSub (c : Ctx) (t : Topic) (a : Actor) (want : String) (priv : Pr
     | (c, some t) =>
     -- muting: "off+dis" for the user's `me` - which the filter of presSingleUserOffline never lets through for a mode without P
     let c := if isPresencer (oldWant &&& oldGiven) ∧ !isPresencer (eff ud) then
-        c.presSingleOffline t a.uid (eff ud) "off+dis" "" "" "" "" false else c
+        c.presSingleOffline t a.uid (eff ud) "off" "" "" "" "" false "dis" else c
     let t := t.setPud a.uid ud
     let changed := oldWant ≠ ud.want ∨ oldGiven ≠ ud.given
     let c := if changed then c.notifySubChange t a.uid a.uid oldWant oldGiven ud.want ud.given a.sid else c
